@@ -399,6 +399,18 @@ func c01Run(c core.Case, env *core.Env) core.Result {
 	if d := diffECDSA(before, sel); d != "" {
 		r.Fail("sign:key-modified", "stored key data changed during signing: %s", d)
 	}
+	if r.Verdict != core.Violated && len(c.ID)%5 == 0 && full <= 32 {
+		d2 := new(big.Int).Mod(new(big.Int).Add(digest, big1), ref.SecpN)
+		w2 := sim.ECDSASigning(env.Seed+1, sel, t, d2, sim.SignOpts{})
+		w2.Run(sim.StartsThen(sim.FIFO), nil)
+		outs2, missing2 := sigOuts(w2)
+		if errs := errorsOf(w2); len(errs) > 0 || len(missing2) > 0 {
+			r.Fail("sign:second-session-failed", "a second signing session with the same in-memory key failed: %s %v", core.Clip(strings.Join(errs, " | "), 300), missing2)
+		} else {
+			ecdsaSigOracle(&r, pub, d2, 0, outs2)
+			r.Count("second_sessions", 1)
+		}
+	}
 	if len(outs) > 0 {
 		s := new(big.Int).SetBytes(outs[0].S)
 		_ = s
@@ -492,6 +504,7 @@ func c02Run(c core.Case, env *core.Env) core.Result {
 	pub := refPt(keys[0].EDDSAPub)
 	msg := edMessage(c.P.Str("msg"), env.Seed, c.ID)
 	full := c.P.Int("full")
+	beforeKeys := snapshotEDDSA(sel)
 	w := sim.EDDSASigning(env.Seed+int64(len(c.ID)), sel, t, msg, sim.SignOpts{FullBytesLen: full, Shuffle: c.P.Bool("shuffle")})
 	w.Run(schedByName(c.P.Str("sched"), w), nil)
 	noteRun(&r, w)
@@ -512,6 +525,22 @@ func c02Run(c core.Case, env *core.Env) core.Result {
 		}
 	}
 	eddsaSigOracle(&r, pub, msg, full, outs)
+	if d := diffEDDSA(beforeKeys, sel); d != "" {
+		r.Fail("edsign:key-modified", "stored key data changed during signing: %s", d)
+	}
+	// the same in-memory key must sign again (an application loads its share once and signs many times)
+	if r.Verdict != core.Violated && len(c.ID)%4 == 0 {
+		msg2 := new(big.Int).Add(msg, big1)
+		w2 := sim.EDDSASigning(env.Seed+1, sel, t, msg2, sim.SignOpts{})
+		w2.Run(sim.StartsThen(sim.FIFO), nil)
+		outs2, missing2 := sigOuts(w2)
+		if errs := errorsOf(w2); len(errs) > 0 || len(missing2) > 0 {
+			r.Fail("edsign:second-session-failed", "a second signing session with the same in-memory key failed: %s %v", core.Clip(strings.Join(errs, " | "), 300), missing2)
+		} else {
+			eddsaSigOracle(&r, pub, msg2, 0, outs2)
+			r.Count("second_sessions", 1)
+		}
+	}
 	r.NonTrivial = r.Obs["signatures_verified"] > 0
 	if r.Verdict == core.Violated {
 		r.Witness = strings.Join(w.Trace(100), "\n")
